@@ -553,13 +553,20 @@ def multitask(S, kind, M, n, T, Q, B=0):
         out = S.must_not_raise("%s multitask model call (latent/task dim %d)" % (kind, ldim), lambda: model(X))
         mean_all, cov_all = out.mean, out.covariance_matrix
         inter = out._interleaved
+        SEL = None
+        if not B and (kind == "independent" or M == 1):
+            # (LMC with M >= 2: the Hadamard product of the latent covariance with the coefficient outer product goes through root
+            #  decompositions - nested square roots that z3 does not finish; the one-task-per-input mode is decided at M = 1)
+            ti = torch.tensor([(T - 1 - i) % T for i in range(n)])
+            sel = S.must_not_raise("%s multitask model call with task_indices" % kind, lambda: model(X, task_indices=ti))
+            SEL = (ti.tolist(), sel.mean, sel.covariance_matrix)
     for bb in (range(B) if B else [None]):
         _multitask_ref(S, kind, M, n, T, nl, jit, inter, Gs, K, J, mall, Mq, Cq, ((W[:, bb, :] if (B and W.ndim == 3) else W) if kind == "lmc" else None),
                        mean_all[bb] if B else mean_all, cov_all[bb] if B else cov_all, (lambda l: (l, bb)) if B else (lambda l: (l,)),
-                       ("batch %d: " % bb) if B else "")
+                       ("batch %d: " % bb) if B else "", SEL)
 
 
-def _multitask_ref(S, kind, M, n, T, nl, jit, inter, Gs, K, J, mall, Mq, Cq, W, mean_t, cov_t, at, tag):
+def _multitask_ref(S, kind, M, n, T, nl, jit, inter, Gs, K, J, mall, Mq, Cq, W, mean_t, cov_t, at, tag, SEL=None):
     # latent q(f_l)
     Lm, Lc = [], []
     for l in range(nl):
@@ -590,6 +597,15 @@ def _multitask_ref(S, kind, M, n, T, nl, jit, inter, Gs, K, J, mall, Mq, Cq, W, 
                     Cref[pos(i, a), pos(j, c)] = v
     S.prove_eq(mean_t, Mref, tag + "%s multitask mean" % kind)
     S.prove_eq(cov_t, Cref, tag + "%s multitask covariance (stored layout, interleaved=%s)" % (kind, inter))
+    if SEL is not None:
+        # one task per input (task_indices): the marginal of the all-tasks distribution at the pairs (i, task_i)
+        ti, sm, sc = SEL
+        S.prove_eq(sm, np.array([Mref[i, ti[i]] for i in range(n)], dtype=object), tag + "%s task_indices mean = all-tasks mean at (i, task_i)" % kind)
+        Csel = np.empty((n, n), dtype=object)
+        for i in range(n):
+            for j in range(n):
+                Csel[i, j] = Cref[pos(i, ti[i]), pos(j, ti[j])]
+        S.prove_eq(sc, Csel, tag + "%s task_indices covariance = all-tasks covariance at the selected pairs" % kind)
 
 
 def scenarios(tier, seed):
@@ -611,6 +627,7 @@ def scenarios(tier, seed):
         add("multitask", kind="independent", M=2, n=2, T=2, Q=0)
         add("multitask", kind="lmc", M=2, n=2, T=2, Q=2)
         add("multitask", kind="lmc", M=1, n=2, T=2, Q=2, B=2)
+        add("multitask", kind="lmc", M=1, n=2, T=3, Q=2)
         add("multitask", kind="independent", M=1, n=2, T=2, Q=0, B=2)
         add("grid_interp", G=5, d=1, dist="cholesky")
         add("grid_interp", G=4, d=2, dist="meanfield")
